@@ -152,14 +152,20 @@ def run(ctx):
     # (iii) end to end
     sweeps = [(rho, rad, fam) for rho in (1.1, 1.2) for rad in (1.4,) for fam in ('edmd', 'dmdc')] + \
              [(0.7, 1.4, 'edmd'), (0.7, 1.4, 'dmdc')]
-    for i in range(ctx.n(30, 500) + len(sweeps)):
-        why, case, note = oracle_fit(ctx, ctx.tier == 'thorough', forced=sweeps[i] if i < len(sweeps) else None)
-        ctx.count('fit:' + case['family'])
-        if note:
-            ctx.count('fit_note:' + lc.stop_category(note) if not note.startswith('fit did not') else 'fit_incomplete')
-        if why:
-            ctx.fail(why, case, {'family': case['family']})
-    return ctx.finish('proof', None)
+
+    def end_to_end(n, stop_at_first=False):
+        for i in range(n + len(sweeps)):
+            why, case, note = oracle_fit(ctx, ctx.tier == 'thorough', forced=sweeps[i] if i < len(sweeps) else None)
+            ctx.count('fit:' + case['family'])
+            if note:
+                ctx.count('fit_note:' + lc.stop_category(note) if not note.startswith('fit did not') else 'fit_incomplete')
+            if why:
+                ctx.fail(why, case, {'family': case['family']})
+                if stop_at_first:
+                    return
+    end_to_end(ctx.n(30, 500))
+    # a broken proof / correspondence with no failing fit so far: a larger population of fits (same oracle)
+    return ctx.finish('proof', lambda c: end_to_end(120, True))
 
 
 def replay(ctx, path):
